@@ -81,6 +81,9 @@ SymC04(C, E) ==
            \/ E[p].k = "run-exc" /\ E[p].v = "exc" /\ E[p].i = 0 - s /\ E[d].v # "timeout"
            \/ E[d].v = "other"
            \/ E[d].v = "timeout" /\ E[d].i # 5
+           \* a scheduler without a timeout cannot have timed out; a critical failure needs one
+           \/ E[d].v = "timeout" /\ C.tmo[s] < 0
+           \/ E[d].v = "critical" /\ ~\E k \in KidsOf(C, s) : C.crit[k] /\ Failed(E, k) # {}
            \/ E[d].v = "critical" /\ E[d].i # 6
 SymC10(C, E) ==
   \/ \E s \in SchedsOf(C) \ {1} : \E p \in RunEnds(E, s) :
@@ -152,8 +155,10 @@ SymC12(C, E) ==
 Shuts(E, n) == {i \in Idx(E) : E[i].n = n /\ E[i].k = "shut"}
 SymC13(C, E) ==
   \/ \E j \in NodesOf(C) : IsJobN(C, j) /\ Cardinality(Shuts(E, j)) > 1
-  \/ \E i \in Idx(E) : E[i].k = "top" /\ E[i].v \in {"true", "false", "exc"} /\
+  \/ ~C.preshut /\ \E i \in Idx(E) : E[i].k = "top" /\ E[i].v \in {"true", "false", "exc"} /\
         \E j \in NodesOf(C) : IsJobN(C, j) /\ Shuts(E, j) = {}
+  \* shut down before the run: no job hears of it a second time
+  \/ C.preshut /\ \E j \in NodesOf(C) : Shuts(E, j) # {}
   \/ \E j \in NodesOf(C) : IsJobN(C, j) /\ \E i \in Shuts(E, j) :
         \E b \in KidsOf(C, C.parent[j]) : StartPos(E, b) > 0 /\ StartPos(E, b) < i /\ (OverPos(E, b) = 0 \/ OverPos(E, b) > i)
   \/ \E i \in Idx(E) : E[i].k = "sshut-ret" /\ E[i].n = 1 /\ TopPos(E) > 0 /\ i > TopPos(E) /\ E[i].v # "null"
